@@ -91,7 +91,46 @@ macro_rules! search {
                 if k == len { break; }
             }
         }
-        println!("{{\"summary\":true,\"type\":\"{}\",\"maxlen\":{},\"vectors\":{},\"accepted\":{},\"sampled_tables\":{},\"violations\":{}}}", $tyname, $maxlen, vectors, accepted, sampled, found.len());
+        // ---- long vectors: lengths around the point where the length itself stops fitting the weight type
+        let mut long_vectors: u64 = 0;
+        if max <= 70000 {
+            let lens: Vec<usize> = vec![(max - 1) as usize, max as usize, (max + 1) as usize, (max + 45) as usize, (2 * max + 2) as usize];
+            for len in lens {
+                if len == 0 || len > 140000 || found.len() >= $max_report { continue; }
+                let per = max / len as i128;
+                for pat in 0..4 {
+                    let mut ws: Vec<i128> = vec![0; len];
+                    match pat { 0 => {}, 1 => { ws[0] = 1; }, 2 => { ws[0] = 5; }, _ => { ws[len - 1] = per.max(1); ws[len / 2] = 1; } }
+                    long_vectors += 1;
+                    let sum: i128 = ws.iter().sum();
+                    let exp: Result<(), Error> = if ws.iter().any(|w| *w < 0 || *w > per) { Err(Error::InvalidWeight) } else if sum == 0 { Err(Error::InsufficientNonZero) } else { Ok(()) };
+                    let wv: Vec<$W> = ws.iter().map(|w| *w as $W).collect();
+                    let short: Vec<i128> = vec![len as i128, ws[0], ws[len / 2], ws[len - 1]];
+                    match guarded(move || WeightedAliasIndex::<$W>::new(wv)) {
+                        Err(p) => report("panic-in-new(long: len,w[0],w[len/2],w[len-1])", &short, p, &mut found),
+                        Ok(Err(e)) => { if Err(e) != exp { report("new-result(long: len,w[0],w[len/2],w[len-1])", &short, format!("got Err({:?}) expected {:?}", e, exp), &mut found); } }
+                        Ok(Ok(t)) => {
+                            if exp.is_err() { report("new-missing-error(long: len,w[0],w[len/2],w[len-1])", &short, format!("expected {:?}", exp), &mut found); }
+                            else {
+                                let t2 = t.clone();
+                                match guarded(move || t2.weights()) {
+                                    Err(p) => report("panic-in-weights(long)", &short, p, &mut found),
+                                    Ok(back) => { let b: Vec<i128> = back.iter().map(|x| *x as i128).collect(); if b != ws { report("weights-roundtrip(long)", &short, "differs".into(), &mut found); } }
+                                }
+                            }
+                            // whatever was accepted must never yield a zero-weight index
+                            for k in 0..2000u64 {
+                                let tt = t.clone();
+                                if let Ok(i) = guarded(move || { let mut r = ScriptRng::new(&[], 1234 + k); tt.sample(&mut r) }) {
+                                    if i >= len || ws[i] == 0 { report("sample-zero-weight(long: len,w[0],w[len/2],w[len-1])", &short, format!("seed {} -> index {}", 1234 + k, i), &mut found); break; }
+                                } else { report("panic-in-sample(long)", &short, "panic".into(), &mut found); break; }
+                            }
+                        }
+                    }
+                }
+            }
+        }
+        println!("{{\"summary\":true,\"type\":\"{}\",\"maxlen\":{},\"vectors\":{},\"accepted\":{},\"sampled_tables\":{},\"long_vectors\":{},\"violations\":{}}}", $tyname, $maxlen, vectors, accepted, sampled, long_vectors, found.len());
         for f in found.iter() { println!("{}", f); }
         found.len()
     }};
